@@ -62,6 +62,11 @@ type CrashTask struct {
 	MaxBits int    `json:"max_bits"` // full subset enumeration up to this many pending units
 	Tears   bool   `json:"tears"`
 	Eager   bool   `json:"eager,omitempty"` // background writer drains after every operation
+	// Coarse: for histories with thousands of writes in one step. Boundaries:
+	// every sync, every marker, every 61st log entry and the last 8; per
+	// boundary the images "nothing pending persisted", "everything pending
+	// persisted" (up to the 63-unit window), "first half persisted".
+	Coarse bool `json:"coarse,omitempty"`
 	// Only: evaluate just this image (replay)
 	Only *ImageRecipe `json:"only,omitempty"`
 }
@@ -282,6 +287,15 @@ func handleCrash(raw []byte) interface{} {
 		if cp.K < k0 {
 			return true
 		}
+		if t.Coarse && t.Only == nil {
+			keep := cp.K >= len(ops)-8 || cp.K%61 == 0
+			if cp.K > 0 && (ops[cp.K-1].Kind == simdisk.OpSync || ops[cp.K-1].Kind == simdisk.OpMarker) {
+				keep = true
+			}
+			if !keep {
+				return true
+			}
+		}
 		// committed txid as of this boundary and whether a commit is in flight
 		committed, inflight := committedAt(ops[:cp.K], env)
 		allowed := map[uint64]pagedrv.State{}
@@ -304,7 +318,11 @@ func handleCrash(raw []byte) interface{} {
 			p = 63
 		}
 		ms, capped := masks(p, t.MaxBits)
-		if capped {
+		if t.Coarse && p > 2 {
+			full := uint64(1)<<uint(p) - 1
+			ms, capped = []uint64{0, full, uint64(1)<<uint(p/2) - 1}, true
+		}
+		if capped && !t.Coarse {
 			res.Capped++
 		}
 		res.Boundaries++
@@ -422,14 +440,15 @@ func runC01(ctx *core.Ctx, pool *par.Pool) {
 		ctx.SetBudget(15 * time.Minute)
 	}
 	runs := plan(cfgs, []seed{seedWAL, seedFrag, seedTail}, depth, seedDepth)
-	share := ctx.Budget() / time.Duration(len(runs))
 	var total xstate.Stats
 	images, distinct, nontrivial, boundaries, transitionsTested, capped := 0, 0, 0, 0, 0, 0
+	hugeHistories := 0
 	outcomes := map[string]int{}
 	for _, run := range runs {
 		cfg := run.Cfg
 		sigs := map[string]bool{}
 		var tasks []CrashTask
+		share := ctx.FairShare(len(runs), 1)
 		endRun := ctx.Phase(share)
 		endBFS := ctx.Phase(share * 4 / 10)
 		st := xstate.BFS(ctx, pool, xstate.Spec{Cfg: cfg, Seed: run.Seed.Ops, Alphabet: crashAlphabet(ctx.Quick()), MaxDepth: run.Depth, Flags: []string{"iolog"},
@@ -465,6 +484,17 @@ func runC01(ctx *core.Ctx, pool *par.Pool) {
 		ctx.Set("io_shapes_"+run.name(), len(sigs))
 		// shortest histories first
 		sort.SliceStable(tasks, func(i, j int) bool { return len(tasks[i].Path) < len(tasks[j].Path) })
+		if cfg.Name == "C" && run.Seed.Name == seedEmpty.Name {
+			// transactions with more queued writes than the background writer takes in one batch (1024)
+			huge := []O{{K: pagedrv.OBegin}, {K: pagedrv.OAlloc, A: 1100}, {K: pagedrv.OWriteAll, B: pagedrv.WFull}, {K: pagedrv.OCommit}}
+			hugeTasks := []CrashTask{{Type: "crash", Cfg: cfg.Name, Path: huge, Coarse: true}, {Type: "crash", Cfg: cfg.Name, Path: huge, Coarse: true, Eager: true}}
+			if !ctx.Quick() {
+				over := append(append([]O{}, huge...), O{K: pagedrv.OBegin}, O{K: pagedrv.OWriteAll, B: pagedrv.WFull}, O{K: pagedrv.OCommit})
+				hugeTasks = append(hugeTasks, CrashTask{Type: "crash", Cfg: cfg.Name, Path: over, Coarse: true}, CrashTask{Type: "crash", Cfg: cfg.Name, Path: over, Coarse: true, Eager: true})
+			}
+			tasks = append(hugeTasks, tasks...)
+			hugeHistories += len(hugeTasks)
+		}
 		raw := make([][]byte, len(tasks))
 		for i := range tasks {
 			raw[i], _ = json.Marshal(tasks[i])
@@ -521,5 +551,7 @@ func runC01(ctx *core.Ctx, pool *par.Pool) {
 	ctx.Set("distinct_images", distinct)
 	ctx.Set("distinct_nontrivial", nontrivial)
 	ctx.Set("recovery_outcomes", outcomes)
+	ctx.Set("huge_transaction_histories", hugeHistories)
+	ctx.Set("huge_transaction_rule", "histories with one 1100-page transaction (more queued writes than one writer batch): boundaries = every sync, every marker, every 61st log entry and the last 8; images per boundary = nothing / everything / the first half of the pending window (63 units) persisted")
 	ctx.Set("rule", "crash image = contents as of the last completed sync before an I/O boundary of the last operation of a history + a subset of the later writes/truncates (page granular), header writes additionally torn at every byte offset; distinct = distinct image bytes (sha256) per history; non-trivial = a proper non-empty subset of the pending units persisted, or a torn header")
 }
